@@ -60,6 +60,190 @@ eval_address = Fn(FI, "eval_address", impl="<'iter, 'ast, 'decls> ResolverContex
                   inserts=[Insert("        let excess_bits = cur_position % addr_unit;", "        proof { assume(addr_unit > 0); }\n", where="before", finding="D16",
                                   why="finding guard: `#bits 0` is accepted, addr_unit == 0 (known finding D16)")])
 
+R7 = Rewrite(r"println!\((?:[^()]|\((?:[^()]|\([^()]*\))*\))*\);", "", regex=True, rule="R7", why="debug printing statement deleted", count=1)
+
+# ---- the per-item pass contract (C02/C03): what one resolver call promises
+def pass_contract(last="ctx.is_last_iteration"):
+    return [
+        C("err_is_loud", "res is Err ==> final(report).msgs() > old(report).msgs()", ["C03", "C02"]),
+        C("resolved_is_clean", "res == Ok::<asm::ResolutionState, ()>(asm::ResolutionState::Resolved) ==> final(report).msgs() == old(report).msgs() && final(report).errors() == old(report).errors()", ["C03", "C02"]),
+        C("unstable_last_pass_is_loud", "res == Ok::<asm::ResolutionState, ()>(asm::ResolutionState::Unresolved) && %s ==> final(report).msgs() > old(report).msgs()" % last, ["C02", "C03"]),
+        C("guess_pass_is_clean", "res is Ok && !%s ==> final(report).msgs() == old(report).msgs() && final(report).errors() == old(report).errors()" % last, ["C03"]),
+        C("parents_balanced", "final(report).parents() == old(report).parents()", ["C03"]),
+    ]
+
+FEV = "src/asm/resolver/eval.rs"
+eval_stub = Fn(FEV, "eval", slot="resolver", mode="stub", ret="res", ensures=LOUD)
+
+def value_expect(name, shape):
+    return Fn(FE, name, impl="Value", slot="expr", mode="stub", ret="res", key="Value::" + name,
+              ensures=LOUD + [C("shape", shape)])
+
+value_stubs = [
+    value_expect("expect_error_or_bigint", "res is Ok ==> res->Ok_0 is Unknown || res->Ok_0 is FailedConstraint || res->Ok_0 is Integer"),
+    value_expect("expect_error_or_usize", "res is Ok ==> res->Ok_0 is Unknown || res->Ok_0 is FailedConstraint || res->Ok_0 is Integer"),
+    value_expect("expect_bool", "true"),
+]
+
+merge = Fn(FM, "merge", impl="ResolutionState", slot="resolver", key="ResolutionState::merge", props=["C02"],
+           ensures=[C("conjunction", "*final(self) is Resolved <==> (*old(self) is Resolved && other is Resolved)", ["C02"])])
+
+resolve_iteratively = Fn(
+    FM, "resolve_iteratively", slot="resolver", ret="res", props=["C02", "C09", "C03", "C19"],
+    requires=[C("budget_at_least_one", "max_iterations >= 1", ["C09"])],
+    ensures=[
+        C("confirmed", "res is Ok ==> final(defs).confirmed()", ["C02"]),
+        C("within_budget", "res is Ok ==> 1 <= res->Ok_0 <= max_iterations", ["C09", "C02"]),
+        C("success_is_clean", "res is Ok ==> final(report).msgs() == old(report).msgs() && final(report).errors() == old(report).errors()", ["C03"]),
+        C("err_is_loud", "res is Err ==> final(report).msgs() > old(report).msgs()", ["C03", "C02"]),
+        C("parents_balanced", "final(report).parents() == old(report).parents()", ["C03"]),
+    ],
+    loops={1: Loop(invariant=[
+        C("count", "iter_count < max_iterations"),
+        C("clean_so_far", "report.msgs() == old(report).msgs() && report.errors() == old(report).errors() && report.parents() == old(report).parents()"),
+    ], ensures=[C("after_loop", "1 <= iter_count")],
+       decreases="max_iterations - iter_count")},
+)
+
+ONCE_ENS = [
+    C("confirms", "res == Ok::<asm::ResolutionState, ()>(asm::ResolutionState::Resolved) && is_last_iteration ==> final(defs).confirmed()", ["C02"], stub_only=True),
+    C("err_is_loud", "res is Err ==> final(report).msgs() > old(report).msgs()", ["C03", "C02"]),
+    C("resolved_is_clean", "res == Ok::<asm::ResolutionState, ()>(asm::ResolutionState::Resolved) ==> final(report).msgs() == old(report).msgs() && final(report).errors() == old(report).errors()", ["C03", "C02"]),
+    C("unstable_last_pass_is_loud", "res == Ok::<asm::ResolutionState, ()>(asm::ResolutionState::Unresolved) && is_last_iteration ==> final(report).msgs() > old(report).msgs()", ["C02", "C03"]),
+    C("guess_pass_is_clean", "res is Ok && !is_last_iteration ==> final(report).msgs() == old(report).msgs() && final(report).errors() == old(report).errors()", ["C03"]),
+    C("parents_balanced", "final(report).parents() == old(report).parents()", ["C03"]),
+]
+resolve_once_stub = Fn(FM, "resolve_once", slot="resolver", ret="res", mode="stub", ensures=ONCE_ENS)
+
+FL = "src/asm/resolver/label.rs"
+STABLE = "Ok::<asm::ResolutionState, ()>(asm::ResolutionState::Resolved)"
+
+resolve_label = Fn(
+    FL, "resolve_label", slot="resolver", ret="res", props=["C02", "C01", "C03"],
+    requires=[
+        C("symbol_defined", "defined(&old(defs).symbols, ast_symbol.item_ref)", ["C03"]),
+        C("is_label", "ast_symbol.kind is Label", ["C03"]),
+        C("bank_defined", "bank_ok(old(defs), ctx.bank_ref)", ["C03"]),
+    ],
+    ensures=pass_contract() + [
+        C("label_is_address_of_next_item",
+          "res is Ok ==> final(defs).symbols.defs@[(ast_symbol.item_ref->0).0 as int]->0.value is Integer"
+          " && final(defs).symbols.defs@[(ast_symbol.item_ref->0).0 as int]->0.value->Integer_0.val() == address_of(bank_of(old(defs), ctx.bank_ref), ctx.bank_data.cur_position as int)", ["C01", "C02"]),
+        C("resolved_means_unchanged",
+          "res == %s ==> expr::value_eq(final(defs).symbols.defs@[(ast_symbol.item_ref->0).0 as int]->0.value, old(defs).symbols.defs@[(ast_symbol.item_ref->0).0 as int]->0.value)" % STABLE, ["C02"]),
+        C("other_lists_untouched", "final(defs).bankdefs == old(defs).bankdefs && final(defs).instructions == old(defs).instructions && final(defs).data_elems == old(defs).data_elems"
+          " && final(defs).res_directives == old(defs).res_directives && final(defs).align_directives == old(defs).align_directives && final(defs).addr_directives == old(defs).addr_directives", ["C02"]),
+        C("other_symbols_untouched", "forall|k: int| 0 <= k < old(defs).symbols.defs@.len() && k != (ast_symbol.item_ref->0).0 ==> final(defs).symbols.defs@[k] == old(defs).symbols.defs@[k]", ["C02"]),
+    ],
+    rewrites=[R7],
+)
+
+def item_defined(lst, node):
+    return C("item_defined", "defined(&old(defs).%s, %s.item_ref)" % (lst, node), ["C03"])
+
+BANK_REQ = C("bank_defined", "bank_ok(old(defs), ctx.bank_ref)", ["C03"])
+
+def idx(lst, node):
+    return "final(defs).%s.defs@[(%s.item_ref->0).0 as int]->0" % (lst, node)
+def oidx(lst, node):
+    return "old(defs).%s.defs@[(%s.item_ref->0).0 as int]->0" % (lst, node)
+
+resolve_res = Fn(
+    "src/asm/resolver/res.rs", "resolve_res", slot="resolver", ret="res", props=["C02", "C03", "C19"],
+    requires=[item_defined("res_directives", "ast_res"), BANK_REQ],
+    ensures=pass_contract() + [
+        C("resolved_means_unchanged", "res == %s ==> %s.reserve_size == %s.reserve_size" % (STABLE, idx("res_directives", "ast_res"), oidx("res_directives", "ast_res")), ["C02"]),
+        C("reserve_is_whole_addresses", "res is Ok ==> %s.reserve_size %% bank_of(old(defs), ctx.bank_ref).addr_unit == 0 || bank_of(old(defs), ctx.bank_ref).addr_unit == 0" % idx("res_directives", "ast_res"), ["C06"]),
+        C("banks_untouched", "final(defs).bankdefs == old(defs).bankdefs", ["C02"]),
+    ],
+    rewrites=[R7],
+    inserts=[Insert("    res.reserve_size =\n        <u32 as TryInto<usize>>::try_into(value).unwrap() *", "    proof { assume(value as int * bank.addr_unit as int <= usize::MAX); }\n", where="before", finding="D9b",
+                    why="finding guard: reserve size (u32) times addr_unit overflows usize (known finding D9b)"),
+             Insert("    if res.reserve_size != prev_value", "    proof { if bank.addr_unit > 0 { vstd::arithmetic::div_mod::lemma_mod_multiples_basic(value as int, bank.addr_unit as int); } }\n", where="before")],
+)
+
+resolve_align = Fn(
+    "src/asm/resolver/align.rs", "resolve_align", slot="resolver", ret="res", props=["C02", "C03", "C19"],
+    requires=[item_defined("align_directives", "ast_align")],
+    ensures=pass_contract() + [
+        C("resolved_means_unchanged", "res == %s ==> %s.align_size == %s.align_size" % (STABLE, idx("align_directives", "ast_align"), oidx("align_directives", "ast_align")), ["C02"]),
+        C("zero_alignment_rejected_in_last_pass", "res == %s && ctx.is_last_iteration ==> %s.align_size != 0" % (STABLE, idx("align_directives", "ast_align")), ["C06"]),
+        C("banks_untouched", "final(defs).bankdefs == old(defs).bankdefs", ["C02"]),
+    ],
+    rewrites=[R7],
+)
+
+resolve_addr = Fn(
+    "src/asm/resolver/addr.rs", "resolve_addr", slot="resolver", ret="res", props=["C02", "C03", "C06", "C19"],
+    requires=[item_defined("addr_directives", "ast_addr"), BANK_REQ],
+    ensures=pass_contract() + [
+        C("resolved_means_unchanged", "res == %s ==> %s.address.val() == %s.address.val()" % (STABLE, idx("addr_directives", "ast_addr"), oidx("addr_directives", "ast_addr")), ["C02"]),
+        C("inside_bank_in_last_pass",
+          "res == %s && ctx.is_last_iteration ==> %s.address.val() >= bank_of(old(defs), ctx.bank_ref).addr_start.val()"
+          " && (bank_of(old(defs), ctx.bank_ref).size is Some ==> (%s.address.val() - bank_of(old(defs), ctx.bank_ref).addr_start.val()) * bank_of(old(defs), ctx.bank_ref).addr_unit < bank_of(old(defs), ctx.bank_ref).size->0)"
+          % (STABLE, idx("addr_directives", "ast_addr"), idx("addr_directives", "ast_addr")), ["C06"]),
+        C("banks_untouched", "final(defs).bankdefs == old(defs).bankdefs", ["C02"]),
+    ],
+    rewrites=[R7],
+)
+
+resolve_assert = Fn(
+    "src/asm/resolver/assert.rs", "resolve_assert", slot="resolver", ret="res", props=["C03", "C09", "C02"],
+    ensures=pass_contract() + [
+        C("only_evaluated_in_last_pass", "!ctx.is_last_iteration ==> res == Ok::<asm::ResolutionState, ()>(asm::ResolutionState::Unresolved)", ["C09"]),
+        C("defs_untouched", "*final(defs) == *old(defs)", ["C02"]),
+    ],
+)
+
+ITER_IMPL = "<'ast, 'decls> ResolveIterator<'ast, 'decls>"
+iter_new = Fn(FI, "new", impl=ITER_IMPL, slot="resolver", mode="stub", ret="res", key="ResolveIterator::new",
+              ensures=[C("flags", "res.is_first_iteration == is_first_iteration && res.is_last_iteration == is_last_iteration")])
+
+NODE_OK = """res is Ok && res->Ok_0 is Some ==> ({
+            let c = res->Ok_0->0;
+            c.is_last_iteration == old(self).is_last_iteration && bank_ok(defs, c.bank_ref)
+            && (match c.node {
+                asm::ResolverNode::Symbol(s) => defined(&defs.symbols, s.item_ref),
+                asm::ResolverNode::Res(n) => defined(&defs.res_directives, n.item_ref),
+                asm::ResolverNode::Align(n) => defined(&defs.align_directives, n.item_ref),
+                asm::ResolverNode::Addr(n) => defined(&defs.addr_directives, n.item_ref),
+                _ => true,
+            })
+        })"""
+iter_next = Fn(FI, "next", impl=ITER_IMPL, slot="resolver", mode="stub", ret="res", key="ResolveIterator::next",
+               ensures=LOUD + [C("flags_kept", "final(self).is_last_iteration == old(self).is_last_iteration"),
+                               C("node_refers_to_defined_items", NODE_OK)])
+
+def item_stub(file, name):
+    return Fn(file, name, slot="resolver", mode="stub", ret="res", ensures=pass_contract())
+
+resolve_constant_stub = item_stub("src/asm/resolver/constant.rs", "resolve_constant")
+resolve_instruction_stub = item_stub("src/asm/resolver/instruction.rs", "resolve_instruction")
+resolve_data_element_stub = item_stub("src/asm/resolver/data_block.rs", "resolve_data_element")
+
+resolve_once = Fn(
+    FM, "resolve_once", slot="resolver", ret="res", props=["C02", "C03", "C09"],
+    attrs=["#[verifier::exec_allows_no_decreases_clause] // termination of the pass loop is NOT proved (the AST cursor lives behind ResolveIterator::next, a stub)"],
+    ensures=ONCE_ENS,
+    rewrites=[R7,
+              Rewrite("label::resolve_label(", "resolve_label(", rule="R6", why="module path flattened: resolver submodules live in one module in the generated file"),
+              Rewrite("instruction::resolve_instruction(", "resolve_instruction(", rule="R6", why="module path flattened"),
+              Rewrite("data_block::resolve_data_element(", "resolve_data_element(", rule="R6", why="module path flattened"),
+              Rewrite("res::resolve_res(", "resolve_res(", rule="R6", why="module path flattened"),
+              Rewrite("align::resolve_align(", "resolve_align(", rule="R6", why="module path flattened"),
+              Rewrite("addr::resolve_addr(", "resolve_addr(", rule="R6", why="module path flattened"),
+              Rewrite("assert::resolve_assert(", "resolve_assert(", rule="R6", why="module path flattened"),
+              ],
+    loops={1: Loop(invariant=[
+        C("flags", "iter.is_last_iteration == is_last_iteration"),
+        C("parents", "report.parents() == old(report).parents()"),
+        C("clean_while_resolved", "resolution_state is Resolved ==> report.msgs() == old(report).msgs() && report.errors() == old(report).errors()"),
+        C("guess_pass_clean", "!is_last_iteration ==> report.msgs() == old(report).msgs() && report.errors() == old(report).errors()"),
+        C("monotone", "report.msgs() >= old(report).msgs()"),
+        C("unstable_last_is_loud", "resolution_state is Unresolved && is_last_iteration ==> report.msgs() > old(report).msgs()"),
+    ])},
+)
+
 expr_value_types = [
     Type(FE, "enum", "Value", slot="expr"),
     Type(FE, "struct", "ExprString", slot="expr"),
@@ -80,12 +264,24 @@ opts_types = [
 
 bigint_stubs = cb.items("stub", "util", only=["new", "checked_add", "checked_sub", "checked_mul", "checked_mod", "checked_into", "maybe_into"], with_cmp=True)
 
+COMMON = (report_fns("stub", "diagn") + bigint_stubs + itemref_items("util") + expr_value_types +
+          ast_types("asm") + defs_types("asm") + opts_types + deflist_fns("verify", "asm") + resolver_types)
+
 UNIT = Unit(
     "U-resolver", "u_resolver/skeleton.rs",
-    items=report_fns("stub", "diagn") + bigint_stubs + itemref_items("util") + expr_value_types +
-          ast_types("asm") + defs_types("asm") + opts_types + deflist_fns("verify", "asm") + resolver_types + [
+    items=COMMON + [
               bits_until_alignment, can_guess, get_output_position, get_address, eval_address,
-          ],
+              merge, iter_new, iter_next, resolve_constant_stub, resolve_instruction_stub, resolve_data_element_stub, resolve_once,
+              resolve_label, resolve_res, resolve_align, resolve_addr, resolve_assert, eval_stub] + value_stubs,
     serves=["C01", "C02", "C03", "C06", "C09", "C19"],
-    description="asm::resolver: address arithmetic (iter.rs), fixed-point driver and per-item resolvers",
+    description="asm::resolver: address arithmetic (iter.rs), one resolution pass (resolve_once) and the per-item resolvers for labels, #res, #align, #addr, #assert",
 )
+
+UNIT_ITERATE = Unit(
+    "U-iterate", "u_resolver/skeleton.rs",
+    items=COMMON + [merge, resolve_once_stub, resolve_iteratively],
+    serves=["C02", "C03", "C09", "C19"],
+    description="asm::resolver::resolve_iteratively: the fixed-point driver, verified against resolve_once's contract (which U-resolver proves, except the ghost event clause [confirms])",
+)
+
+UNITS = [UNIT, UNIT_ITERATE]
